@@ -29,7 +29,7 @@ def run(cmd, cwd, env=None, timeout=3600):
     return subprocess.run(cmd, cwd=cwd, env=e, stdout=subprocess.PIPE, stderr=subprocess.STDOUT, text=True, timeout=timeout)
 
 
-def suite(wt, jobs):
+def suite(wt, jobs, patch=None):
     with open('/root/.vp/BASELINE.json') as f:
         want = set(json.load(f)['stable_pass'])
     xml = os.path.join(wt, '_junit.xml')
@@ -55,7 +55,32 @@ def suite(wt, jobs):
         r2 = run([PY, '-m', 'pytest', '-q', '-p', 'no:cacheprovider', path], wt, env={'PYTHONPATH': wt})
         if ' passed' not in r2.stdout.strip().splitlines()[-1] or ' failed' in r2.stdout.strip().splitlines()[-1]:
             still.append((m, why.get(m, '')))
-    return {'tail': r.stdout.strip().splitlines()[-1:], 'passed': len(passed), 'missing_first_run': missing, 'missing_confirmed': still}
+    # a hypothesis-driven test can fail on an example unrelated to the change: re-run what is still missing three times with a fresh example
+    # database with and without the patch; a test that passes with the patch, or fails as often without it, is flaky and not attributed
+    flaky = []
+    if still and patch is not None:
+        def tries(test, n=3):
+            mod, t = test.split('::')
+            path = mod.rsplit('.', 1)[0].replace('.', '/') + '.py::' + mod.rsplit('.', 1)[1] + '::' + t
+            ok = 0
+            for _ in range(n):
+                shutil.rmtree(os.path.join(wt, '.hypothesis'), ignore_errors=True)
+                rr = run([PY, '-m', 'pytest', '-q', '-p', 'no:cacheprovider', path], wt, env={'PYTHONPATH': wt})
+                last = rr.stdout.strip().splitlines()[-1] if rr.stdout.strip() else ''
+                ok += int(' passed' in last and ' failed' not in last)
+            return ok
+        keep = []
+        for m, why in still:
+            p_ok = tries(m)
+            run(['git', '-C', wt, 'apply', '-R', patch], '/')
+            c_ok = tries(m)
+            run(['git', '-C', wt, 'apply', patch], '/')
+            if p_ok >= 1 or p_ok >= c_ok:
+                flaky.append({'test': m, 'why': why, 'runs': 3, 'passed_patched': p_ok, 'passed_clean': c_ok})
+            else:
+                keep.append((m, why))
+        still = keep
+    return {'tail': r.stdout.strip().splitlines()[-1:], 'passed': len(passed), 'missing_first_run': missing, 'missing_confirmed': still, 'flaky_unrelated': flaky}
 
 
 def main():
@@ -99,7 +124,7 @@ def main():
                     fired[pid] = ['ANALYSIS-ERROR ' + rr.stdout.strip().splitlines()[-1][:300]]
             out['checks_fired'] = fired
             if not skip_suite:
-                out['suite'] = suite(wt, jobs)
+                out['suite'] = suite(wt, jobs, patch)
     finally:
         run(['git', '-C', '/repo', 'worktree', 'remove', '--force', wt], '/')
         shutil.rmtree(tmp, ignore_errors=True)
